@@ -4,8 +4,8 @@
    turns, i.e. are the same phase.  cos/sin/abs/angle are not modelled: see C14_gain_reproduces_valid_cartesian for what
    that means for the Cartesian value.  cal_product_types / default_cal_products are regenerated from the source. *)
 From Coq Require Import ZArith QArith Qround Qabs List Bool String Sorting.Sorted.
-From KV Require Import Base.Sx Base.Str Gen.Generated Model.Interp Model.CalInterp Model.CalSelect Proofs.InterpP
-  Proofs.CalInterpP Proofs.CalStitchP Proofs.CalSelectP.
+From KV Require Import Base.Sx Base.Str Gen.Generated Model.Interp Model.CalInterp Model.CalSelect Model.CalDispatch
+  Proofs.InterpP Proofs.CalInterpP Proofs.CalStitchP Proofs.CalSelectP Proofs.CalDispatchP.
 Import ListNotations.
 Open Scope Q_scope.
 
@@ -291,3 +291,37 @@ Theorem C14_discover_streams :
      snd (discover (pre ++ a :: post)) = map (selfcal_name (as_name a)) (as_targets a)).
 Proof. exact (conj discover_l1_first (conj discover_l1_default discover_l2_first)). Qed.
 Print Assumptions C14_discover_streams.
+
+(* DISPATCH BY PRODUCT TYPE (Model/CalDispatch.v; `cal_dispatch` is regenerated from the if/elif chain of
+   calc_correction_per_input on every run): K -> delays, B -> bandpass, G -> flux calibration then interpolation over
+   all dumps, GPHASE / GAMP_PHASE -> interpolation per target without flux scaling; exactly the known types have a
+   calculator (anything else: KeyError). *)
+Theorem C14_dispatch_by_type :
+  (kind_of_type "K" = Some KDelay /\ kind_of_type "B" = Some KBandpass /\
+   kind_of_type "G" = Some (KGain true false) /\
+   kind_of_type "GPHASE" = Some (KGain false true) /\ kind_of_type "GAMP_PHASE" = Some (KGain false true)) /\
+  (forall t, kind_of_type t <> None <-> In t cal_product_types).
+Proof. exact (conj dispatch_table dispatch_domain). Qed.
+Print Assumptions C14_dispatch_by_type.
+
+(* so: "scaled by the inverse square root of the flux when known" is what happens to G and only G, and "only uses
+   solutions derived on the same target" (C14_selfcal_target_isolation) is what happens to the self-cal products *)
+Theorem C14_dispatch_gain_like :
+  (forall rsqrt N sols names_at tbl targets,
+     gain_like_correction rsqrt "G" N sols names_at tbl targets =
+     Some (gain_corr N (calibrate_flux rsqrt sols names_at tbl) None)) /\
+  (forall rsqrt t N sols names_at tbl targets, t = "GPHASE" \/ t = "GAMP_PHASE" ->
+     gain_like_correction rsqrt t N sols names_at tbl targets = Some (gain_corr N sols (Some targets))).
+Proof. exact (conj dispatch_G dispatch_selfcal). Qed.
+Print Assumptions C14_dispatch_gain_like.
+
+(* the decisions the model takes over from the source as regenerated constants are the documented ones: bandpasses are
+   INVALID beyond the outermost valid channel, gains hold the nearest solution, a gain solution is valid when finite
+   AND on the target, 'all' / 'default' always skip missing products, and the product loop of calc_correction has the
+   shape Model/CalSelect.v `select` follows *)
+Theorem C14_source_decisions :
+  (bandpass_left_invalid, bandpass_right_invalid) = (true, true) /\
+  (gain_left_invalid, gain_right_invalid) = (false, false) /\
+  gain_valid_needs_on_target = true /\ skip_group_names = ["all"; "default"] /\ product_loop_shape_checked = true.
+Proof. exact interp_edges. Qed.
+Print Assumptions C14_source_decisions.
